@@ -43,20 +43,26 @@ var (
 	oSpends  map[int]int
 	oPenBlk  map[int]int64
 	oRecancel map[int]bool
+	oCRs     map[int]oAcct
+	oCRRets  map[int]int
 )
 
 func oracle(t []string, out string) *hx.Violation {
 	switch t[0] {
 	case "reset":
-		oAccts, oStakes, oRecancel = map[int]oAcct{}, map[int]oStake{}, map[int]bool{}
+		oAccts, oStakes, oRecancel, oCRs = map[int]oAcct{}, map[int]oStake{}, map[int]bool{}, map[int]oAcct{}
 		fallthrough
 	case "begin":
-		oRets, oWd, oSpends, oPenBlk = map[int]int{}, map[int]int64{}, map[int]int{}, map[int]int64{}
+		oRets, oWd, oSpends, oPenBlk, oCRRets = map[int]int{}, map[int]int64{}, map[int]int{}, map[int]int64{}, map[int]int{}
 	case "ret":
 		if out == "accept" {
 			o := int(i64(t[1]))
 			oRets[o]++
 			oWd[o] += i64(t[2]) - i64(t[4])
+		}
+	case "crret":
+		if out == "accept" {
+			oCRRets[int(i64(t[1]))]++
 		}
 	case "cancel":
 		if out == "accept" {
@@ -74,7 +80,7 @@ func oracle(t []string, out string) *hx.Violation {
 		mode := ""
 		var viol *hx.Violation
 		for _, x := range f {
-			if x == "A" || x == "S" {
+			if x == "A" || x == "S" || x == "R" {
 				mode = x
 				continue
 			}
@@ -105,6 +111,24 @@ func oracle(t []string, out string) *hx.Violation {
 				}
 				if viol == nil && a.total < 0 {
 					viol = &hx.Violation{Kind: "negative-total", Detail: fmt.Sprintf("owner=%d total=%d", id, a.total)}
+				}
+			} else if mode == "R" {
+				a := oAcct{i64(p[1]), i64(p[2]), i64(p[3]), i64(p[4])}
+				pre, had := oCRs[id]
+				oCRs[id] = a
+				availPost := a.total - a.deposit - a.penalty
+				dpen, availPre := int64(0), int64(0)
+				if had {
+					dpen = a.penalty - pre.penalty
+					availPre = pre.total - pre.deposit - pre.penalty
+				}
+				if viol == nil && oCRRets[id] >= 1 && availPost+dpen < 0 {
+					viol = &hx.Violation{Kind: "cr-deposit-overdraft", Detail: fmt.Sprintf(
+						"candidate=%d returns_in_block=%d available_before=%d available_after=%d: CR deposit withdrawals of one block exceed the available amount",
+						id, oCRRets[id], availPre, availPost)}
+				}
+				if viol == nil && (a.total < 0 || a.deposit < 0) && (!had || (pre.total >= 0 && pre.deposit >= 0)) {
+					viol = &hx.Violation{Kind: "cr-negative-balance", Detail: fmt.Sprintf("candidate=%d total=%d lock=%d", id, a.total, a.deposit)}
 				}
 			} else {
 				s := oStake{i64(p[1]), i64(p[2])}
@@ -153,6 +177,8 @@ type genState struct {
 	stakes []int
 	nextO  int
 	touched map[int]bool // owners with a state-changing tx (cancel / pen) queued in the open block
+	crs    []int
+	nextC  int
 }
 
 func (s *genState) avail(o int) int64 {
@@ -258,8 +284,80 @@ func (s *genState) regOwner(v2 bool) {
 	}
 }
 
+func (s *genState) crAvail(c int) int64 {
+	return int64(w.cm.GetAvailableDepositAmount(crCID(w.cr(c))))
+}
+
+func (s *genState) regCR() {
+	c := s.nextC
+	s.nextC++
+	s.g.Emit("crreg %d %d", c, minDeposit+int64(s.r.Pick(0, 0, 1, 500, 2000))*ela)
+	s.crs = append(s.crs, c)
+}
+
+// one ReturnCRDepositCoin for candidate c; want = intended net withdrawal
+func (s *genState) emitCRRet(c int, want int64) {
+	ids := s.freeUtxos(1000 + c)
+	if len(ids) == 0 {
+		return
+	}
+	var chosen []string
+	var inp, tinp int64
+	for _, id := range ids {
+		chosen = append(chosen, strconv.Itoa(id))
+		u := w.utxos[id]
+		inp += int64(u.value)
+		tinp += int64(w.cm.GetState().DepositOutputs[u.op.ReferKey()])
+		if inp >= want && s.r.Chance(70) {
+			break
+		}
+	}
+	if want > inp {
+		want = inp
+	}
+	if want < minFee {
+		want = minFee
+	}
+	if want > inp {
+		return
+	}
+	fee := int64(minFee)
+	if s.r.Chance(20) {
+		fee = 0
+	}
+	s.g.Emit("crret %d %d %d %d %d %s", c, inp, tinp, inp-want, want-fee, strings.Join(chosen, ","))
+}
+
+func (s *genState) randomCRTx() {
+	r := s.r
+	if len(s.crs) == 0 || (len(s.crs) < 4 && r.Chance(10)) {
+		s.regCR()
+		return
+	}
+	c := s.crs[r.Intn(len(s.crs))]
+	switch r.Intn(6) {
+	case 0:
+		s.g.Emit("crdep %d %d", c, int64(r.Pick(1, 10, 100, 1000, 2500))*ela+int64(r.Intn(3)))
+	case 1:
+		s.g.Emit("crcancel %d", c)
+	default:
+		av := s.crAvail(c)
+		if av <= 0 && r.Chance(70) {
+			return
+		}
+		s.emitCRRet(c, amountAround(r, av))
+		if r.Chance(8) { // a second return of the same candidate in the same block
+			s.emitCRRet(c, amountAround(r, av))
+		}
+	}
+}
+
 func (s *genState) randomTx() {
 	r := s.r
+	if r.Chance(25) {
+		s.randomCRTx()
+		return
+	}
 	switch r.Intn(14) {
 	case 0:
 		if len(s.owners) < 7 {
@@ -388,6 +486,8 @@ func history(g *hx.Gen, r *hx.Rand, blocks int) {
 		}
 		s.g.Emit("stake 0 %d", 1000*ela)
 		s.stakes = append(s.stakes, 0)
+		s.regCR()
+		s.regCR()
 	})
 	for i := 0; i < 6; i++ {
 		s.block(func() {
